@@ -180,3 +180,63 @@ Proof.
     assert (M : (-a1) * (-a2) < 2 * (b1 * b2)) by (apply mix1; nia).
     nia.
 Qed.
+
+Lemma Pos_total : forall a b, ~ Pos a b -> ~ Pos (- a) (- b) -> a = 0 /\ b = 0.
+Proof.
+  intros a b H1 H2. unfold Pos in *.
+  destruct (Z_lt_le_dec a 0) as [La|La]; destruct (Z_lt_le_dec b 0) as [Lb|Lb].
+  - exfalso. apply H2. left. lia.
+  - destruct (Z.eq_dec b 0) as [Eb|Eb]; [exfalso; apply H2; left; lia|].
+    destruct (Z_lt_le_dec (a * a) (2 * (b * b))) as [L|L]; [exfalso; apply H1; right; right; lia|].
+    destruct (Z_lt_le_dec (2 * (b * b)) (a * a)) as [L'|L']; [exfalso; apply H2; right; left; nia|].
+    assert (E : a * a = 2 * (b * b)) by lia. apply sqrt2_irrational in E. lia.
+  - destruct (Z.eq_dec a 0) as [Ea|Ea]; [exfalso; apply H2; left; lia|].
+    destruct (Z_lt_le_dec (2 * (b * b)) (a * a)) as [L|L]; [exfalso; apply H1; right; left; lia|].
+    destruct (Z_lt_le_dec (a * a) (2 * (b * b))) as [L'|L']; [exfalso; apply H2; right; right; nia|].
+    assert (E : a * a = 2 * (b * b)) by lia. apply sqrt2_irrational in E. lia.
+  - destruct (Z.eq_dec a 0) as [Ea|Ea]; [|exfalso; apply H1; left; lia].
+    destruct (Z.eq_dec b 0) as [Eb|Eb]; [|exfalso; apply H1; left; lia]. auto.
+Qed.
+
+Lemma zr_ltb_spec : forall x y, zr_ltb x y = true <-> Pos (fst y - fst x) (snd y - snd x).
+Proof. intros [a b] [c d]. unfold zr_ltb, zr_sub. simpl fst. simpl snd. apply zr_pos_spec. Qed.
+
+Lemma zr_ltb_false : forall x y, zr_ltb x y = false <-> ~ Pos (fst y - fst x) (snd y - snd x).
+Proof.
+  intros x y. rewrite <- zr_ltb_spec. destruct (zr_ltb x y); split; intros H; try congruence; try discriminate.
+Qed.
+
+Lemma zr2_ordered_costs : ordered_costs zr_zero zr_add zr_ltb.
+Proof.
+  constructor.
+  - intros [a b]. apply zr_ltb_false. simpl. replace (a - a) with 0 by lia. replace (b - b) with 0 by lia.
+    unfold Pos. lia.
+  - intros [a1 a2] [b1 b2] [c1 c2]. rewrite !zr_ltb_spec. simpl. intros H1 H2.
+    pose proof (Pos_add _ _ _ _ H1 H2) as H.
+    replace (b1 - a1 + (c1 - b1)) with (c1 - a1) in H by lia.
+    replace (b2 - a2 + (c2 - b2)) with (c2 - a2) in H by lia. assumption.
+  - intros [a1 a2] [b1 b2]. rewrite !zr_ltb_false. simpl. intros H1 H2.
+    replace (a1 - b1) with (- (b1 - a1)) in H2 by lia. replace (a2 - b2) with (- (b2 - a2)) in H2 by lia.
+    destruct (Pos_total _ _ H1 H2). f_equal; lia.
+  - intros [a1 a2] [b1 b2] [c1 c2]. unfold zr_add. simpl. f_equal; lia.
+  - intros [a1 a2] [b1 b2]. unfold zr_add. simpl. f_equal; lia.
+  - intros [a1 a2]. unfold zr_add, zr_zero. simpl. f_equal; lia.
+  - intros [a1 a2] [b1 b2] [c1 c2]. unfold zr_ltb, zr_sub, zr_add. simpl fst. simpl snd.
+    replace (b1 + c1 - (a1 + c1)) with (b1 - a1) by lia.
+    replace (b2 + c2 - (a2 + c2)) with (b2 - a2) by lia. reflexivity.
+Qed.
+
+(* a sufficient linear condition for a + b sqrt 2 <= 0 (enough for all grid heuristics) *)
+Lemma zr_pos_false_suff : forall a b,
+  (a <= 0 /\ b <= 0) \/ (0 < b /\ a <= - 2 * b) \/ (b < 0 /\ a <= - b) -> zr_pos (a, b) = false.
+Proof.
+  intros a b H. destruct (zr_pos (a, b)) eqn:E; [|reflexivity]. exfalso.
+  apply zr_pos_spec in E. unfold Pos in E.
+  destruct H as [H|[H|H]]; destruct E as [E|[E|E]]; try lia; nia.
+Qed.
+
+Lemma zr_le_suff : forall x y : zr2,
+  (fst x - fst y <= 0 /\ snd x - snd y <= 0) \/ (0 < snd x - snd y /\ fst x - fst y <= - 2 * (snd x - snd y))
+  \/ (snd x - snd y < 0 /\ fst x - fst y <= - (snd x - snd y)) ->
+  cle zr_ltb x y.
+Proof. intros [a b] [c d] H. unfold cle, zr_ltb, zr_sub. simpl in *. apply zr_pos_false_suff. assumption. Qed.
